@@ -514,6 +514,9 @@ def api_calls(ctx):
     single("EOF(n_modes=2, center=False)", "DataArray,center=False", lambda: xe.single.EOF(n_modes=2, center=False), X, dict(center=False), "EOF")
     single("EOF(n_modes=2, standardize=True)", "DataArray,standardize", lambda: xe.single.EOF(n_modes=2, standardize=True), X, dict(std=True), "EOF")
     single("EOF(n_modes=2)", "DataArray,one-feature-dim", lambda: xe.single.EOF(n_modes=2), X1, {}, "EOF")
+    # a fitted feature dimension of length one (a single pressure level): data without it is data with another dimension set
+    Xlev = X.expand_dims(lev=[500.0]).transpose("time", "lev", *[d for d in X.dims if d != "time"])
+    single("EOF(n_modes=2)", "DataArray,length-1-feature-dim", lambda: xe.single.EOF(n_modes=2), Xlev, {}, "EOF")
     single("EOF(n_modes=2)", "Dataset", lambda: xe.single.EOF(n_modes=2), DS, {}, "EOF")
     single("EOF(n_modes=2)", "list", lambda: xe.single.EOF(n_modes=2), [X, Z], {}, "EOF")
     single("ComplexEOF(n_modes=2)", "DataArray", lambda: xe.single.ComplexEOF(n_modes=2), Xc, dict(cplx=True), "ComplexEOF")
